@@ -390,6 +390,18 @@ put_frame(bb *b, bool fin, int rsv, int op, bool masked, uint32_t mask,
 		for (size_t i = 0; i < len; i++) b->p[at + i] ^= mk[i & 3];
 }
 
+// frame header only, 64-bit length form with an arbitrary length value
+static void
+put_hdr64(bb *b, bool fin, int op, bool masked, uint32_t mask, uint64_t len)
+{
+	uint8_t h[14];
+	h[0] = (uint8_t) ((fin ? 0x80 : 0) | (op & 15));
+	h[1] = (uint8_t) (127 | (masked ? 0x80 : 0));
+	for (int i = 0; i < 8; i++) h[2 + i] = (uint8_t) (len >> (8 * (7 - i)));
+	h[10] = (uint8_t) (mask >> 24); h[11] = (uint8_t) (mask >> 16); h[12] = (uint8_t) (mask >> 8); h[13] = (uint8_t) mask;
+	bb_add(b, h, masked ? 14 : 10);
+}
+
 typedef struct {
 	bool     fin, masked;
 	int      rsv, op, lenbytes; // lenbytes 1, 2 or 8
@@ -442,6 +454,7 @@ typedef struct {
 	size_t recvmax;       // 0 none (message mode only)
 	bool   msgmode;
 	bool   allow_text;
+	size_t strip;         // message mode: leading bytes of every message that are not delivered (SP header)
 	// state
 	bool   inmsg;
 	int    msg_op;
@@ -458,6 +471,7 @@ typedef struct {
 	bb     pongs;
 	int    close_code;
 	long   nframes, ndata_frames;
+	long   n_lenenc[3];   // data frames seen with a 7 / 16 / 64 bit length
 	size_t max_data_frame;
 	const char *viol;     // first rule violation, NULL if none
 	size_t viol_at;       // stream offset of the offending frame
@@ -550,6 +564,7 @@ wsdec_feed(wsdec *d, const uint8_t *s, size_t n)
 			}
 		} else {
 			d->ndata_frames++;
+			d->n_lenenc[f.lenbytes == 1 ? 0 : f.lenbytes == 2 ? 1 : 2]++;
 			if (pl > d->max_data_frame) d->max_data_frame = pl;
 			if (f.op != OP_CONT) {
 				d->inmsg   = true;
@@ -565,7 +580,7 @@ wsdec_feed(wsdec *d, const uint8_t *s, size_t n)
 			}
 			if (f.fin) {
 				d->inmsg = false;
-				if (d->msgmode) bb_add(&d->data, d->cur.p, d->cur.n);
+				if (d->msgmode) bb_add(&d->data, d->cur.p + (d->cur.n < d->strip ? d->cur.n : d->strip), d->cur.n < d->strip ? 0 : d->cur.n - d->strip);
 				if (d->nmsg < MAXMSG) {
 					d->msgops[d->nmsg] = d->msg_op;
 					d->bound[d->nmsg]  = d->data.n;
@@ -583,7 +598,7 @@ enum { R_SL = 0, R_SD, R_PL, R_PD, NROLES };
 static const char *role_names[NROLES] = { "stream-listener", "stream-dialer", "sp-listener", "sp-dialer" };
 #define ROLE_IS_SP(r) ((r) >= R_PL)
 #define ROLE_IS_SERVER(r) ((r) == R_SL || (r) == R_PL)
-#define SP_PROTO "pair.sp.nanomsg.org"
+#define SP_PROTO(e) ((e)->cfg.sp1 ? "pair1.sp.nanomsg.org" : "pair.sp.nanomsg.org")
 
 typedef struct {
 	int    role;
@@ -592,7 +607,28 @@ typedef struct {
 	bool   recv_text, send_text;
 	size_t rxbuf;
 	int    hs_plan; // interposer plan active during the handshake: 0 none, 1 dribble, 2 random
+	int    hs_defect; // HS_NONE or the one defect the raw peer plants in its half of the upgrade
+	bool   sp1;       // SP roles: pair1 (4-byte hop header in front of every body) instead of pair0
 } wscfg;
+
+// defects of the upgrade exchange.  HD_*: the raw server's 101 response to an
+// nng dialer; HL_*: the raw client's request to an nng listener.
+enum {
+	HS_NONE = 0,
+	HD_ACCEPT_WRONG, HD_ACCEPT_MISSING, HD_ACCEPT_OTHER_KEY, HD_ACCEPT_TRUNCATED, HD_STATUS_200, HD_STATUS_400, HD_STATUS_404, HD_STATUS_503,
+	HD_UPGRADE_MISSING, HD_UPGRADE_WRONG, HD_CONN_MISSING, HD_CONN_WRONG, HD_PROTO_MISSING, HD_PROTO_WRONG,
+	HL_KEY_MISSING, HL_KEY_SHORT, HL_KEY_LONG, HL_VERSION_MISSING, HL_VERSION_8, HL_VERSION_14, HL_UPGRADE_MISSING, HL_UPGRADE_WRONG,
+	HL_CONN_MISSING, HL_CONN_WRONG, HL_METHOD_POST, HL_HTTP10, HL_PROTO_MISSING, HL_PROTO_WRONG,
+	HS_NDEFECTS
+};
+#define HD_FIRST HD_ACCEPT_WRONG
+#define HD_LAST HD_PROTO_WRONG
+#define HL_FIRST HL_KEY_MISSING
+#define HL_LAST HL_PROTO_WRONG
+static const char *hs_names[HS_NDEFECTS] = { "none", "accept-wrong", "accept-missing", "accept-for-another-key", "accept-truncated", "status-200", "status-400", "status-404", "status-503",
+	"upgrade-missing", "upgrade-not-websocket", "connection-missing", "connection-not-upgrade", "subprotocol-missing", "subprotocol-wrong",
+	"key-missing", "key-too-short", "key-too-long", "version-missing", "version-8", "version-14", "upgrade-missing", "upgrade-not-websocket",
+	"connection-missing", "connection-not-upgrade", "method-post", "http-1.0", "subprotocol-missing", "subprotocol-wrong" };
 
 #define DEFLT ((size_t) -1)
 #define MAXLOG 512
@@ -609,6 +645,8 @@ typedef struct {
 	uint8_t           *rxbuf;
 	rpeer              raw;
 	size_t             hs_in; // handshake bytes nng had to read
+	int                hs_status; // status nng answered a (defective) upgrade request with
+	int                hs_rv;     // result of the accept / dial aio
 	// delivered log (protected by mtx)
 	pthread_mutex_t mtx;
 	bb              got;
@@ -717,8 +755,16 @@ handshake_as_client(wsep *e, int port)
 	vf_fill(rnd, sizeof(rnd), vf_now_ns());
 	b64enc(rnd, 16, key);
 	ws_accept_for(key, want);
-	bb_printf(&rq, "GET /x HTTP/1.1\r\nHost: 127.0.0.1:%d\r\nUpgrade: websocket\r\nConnection: Upgrade\r\nSec-WebSocket-Key: %s\r\nSec-WebSocket-Version: 13\r\n", port, key);
-	if (ROLE_IS_SP(e->cfg.role)) bb_printf(&rq, "Sec-WebSocket-Protocol: %s\r\n", SP_PROTO);
+	int df = e->cfg.hs_defect;
+	bb_printf(&rq, "%s /x HTTP/1.%d\r\nHost: 127.0.0.1:%d\r\n", df == HL_METHOD_POST ? "POST" : "GET", df == HL_HTTP10 ? 0 : 1, port);
+	if (df != HL_UPGRADE_MISSING) bb_printf(&rq, "Upgrade: %s\r\n", df == HL_UPGRADE_WRONG ? "h2c" : "websocket");
+	if (df != HL_CONN_MISSING) bb_printf(&rq, "Connection: %s\r\n", df == HL_CONN_WRONG ? "keep-alive" : "Upgrade");
+	if (df == HL_KEY_SHORT) bb_printf(&rq, "Sec-WebSocket-Key: %.20s\r\n", key);
+	else if (df == HL_KEY_LONG) bb_printf(&rq, "Sec-WebSocket-Key: %.22sAAAA==\r\n", key);
+	else if (df != HL_KEY_MISSING) bb_printf(&rq, "Sec-WebSocket-Key: %s\r\n", key);
+	if (df != HL_VERSION_MISSING) bb_printf(&rq, "Sec-WebSocket-Version: %s\r\n", df == HL_VERSION_8 ? "8" : df == HL_VERSION_14 ? "14" : "13");
+	if (df == HL_METHOD_POST) bb_str(&rq, "Content-Length: 0\r\n");
+	if (ROLE_IS_SP(e->cfg.role) && df != HL_PROTO_MISSING) bb_printf(&rq, "Sec-WebSocket-Protocol: %s\r\n", df == HL_PROTO_WRONG ? "rep.sp.nanomsg.org" : SP_PROTO(e));
 	bb_str(&rq, "\r\n");
 	e->hs_in = rq.n;
 	vf_fd_write_all(e->raw.fd, rq.p, rq.n, 5000);
@@ -732,11 +778,14 @@ handshake_as_client(wsep *e, int port)
 		if (r == 1) break;
 		int f = rp_fill(&e->raw, 10000);
 		if (f <= 0) {
-			vf_violation("C16/ws-handshake/no-response", "%s: valid upgrade request not answered (%s)", e->desc, f == 0 ? "connection closed" : "timeout");
+			if (df != HS_NONE && f == 0) return false; // refusing by closing is a verdict too
+			vf_violation("C16/ws-handshake/no-response", "%s: upgrade request not answered (%s)", e->desc, f == 0 ? "connection closed" : "timeout");
 			return false;
 		}
 	}
-	e->raw.pos = m.head_len;
+	e->raw.pos   = m.head_len;
+	e->hs_status = m.status;
+	if (df != HS_NONE) return m.status == 101; // judged by the caller
 	if (m.status != 101) {
 		snprintf(line, sizeof(line), "status %d %.60s to a valid upgrade request", m.status, m.reason);
 		vf_violation("C16/ws-handshake/refused", "%s: %s", e->desc, line);
@@ -751,7 +800,7 @@ handshake_as_client(wsep *e, int port)
 	}
 	v = hmsg_get(&m, "Sec-WebSocket-Protocol");
 	if (ROLE_IS_SP(e->cfg.role)) {
-		if (v == NULL || strcmp(v, SP_PROTO) != 0) hs_violation(e, "subprotocol", v ? v : "(missing)");
+		if (v == NULL || strcmp(v, SP_PROTO(e)) != 0) hs_violation(e, "subprotocol", v ? v : "(missing)");
 	} else if (v != NULL) {
 		hs_violation(e, "subprotocol-not-requested", v);
 	}
@@ -799,13 +848,25 @@ handshake_as_server(wsep *e, const bb *extra)
 	}
 	v = hmsg_get(&m, "Sec-WebSocket-Protocol");
 	if (ROLE_IS_SP(e->cfg.role)) {
-		if (v == NULL || !has_token(v, SP_PROTO)) hs_violation(e, "subprotocol", v ? v : "(missing)");
+		if (v == NULL || !has_token(v, SP_PROTO(e))) hs_violation(e, "subprotocol", v ? v : "(missing)");
 	} else if (v != NULL) {
 		hs_violation(e, "subprotocol-unexpected", v);
 	}
-	ws_accept_for(key, acc);
-	bb_printf(&rs, "HTTP/1.1 101 Switching Protocols\r\nUpgrade: websocket\r\nConnection: Upgrade\r\nSec-WebSocket-Accept: %s\r\n", acc);
-	if (ROLE_IS_SP(e->cfg.role)) bb_printf(&rs, "Sec-WebSocket-Protocol: %s\r\n", SP_PROTO);
+	int df = e->cfg.hs_defect;
+	ws_accept_for(df == HD_ACCEPT_OTHER_KEY ? "dGhlIHNhbXBsZSBub25jZQ==" : key, acc);
+	if (df == HD_ACCEPT_WRONG) acc[5] = acc[5] == 'A' ? 'B' : 'A';
+	if (df == HD_ACCEPT_TRUNCATED) acc[27] = 0;
+	switch (df) {
+	case HD_STATUS_200: bb_str(&rs, "HTTP/1.1 200 OK\r\n"); break;
+	case HD_STATUS_400: bb_str(&rs, "HTTP/1.1 400 Bad Request\r\n"); break;
+	case HD_STATUS_404: bb_str(&rs, "HTTP/1.1 404 Not Found\r\n"); break;
+	case HD_STATUS_503: bb_str(&rs, "HTTP/1.1 503 Service Unavailable\r\n"); break;
+	default: bb_str(&rs, "HTTP/1.1 101 Switching Protocols\r\n"); break;
+	}
+	if (df != HD_UPGRADE_MISSING) bb_printf(&rs, "Upgrade: %s\r\n", df == HD_UPGRADE_WRONG ? "h2c" : "websocket");
+	if (df != HD_CONN_MISSING) bb_printf(&rs, "Connection: %s\r\n", df == HD_CONN_WRONG ? "keep-alive" : "Upgrade");
+	if (df != HD_ACCEPT_MISSING) bb_printf(&rs, "Sec-WebSocket-Accept: %s\r\n", acc);
+	if (ROLE_IS_SP(e->cfg.role) && df != HD_PROTO_MISSING) bb_printf(&rs, "Sec-WebSocket-Protocol: %s\r\n", df == HD_PROTO_WRONG ? "rep.sp.nanomsg.org" : SP_PROTO(e));
 	bb_str(&rs, "\r\n");
 	e->hs_in = rs.n;
 	if (extra != NULL) bb_add(&rs, extra->p, extra->n);
@@ -819,7 +880,7 @@ static void
 ep_describe(wsep *e)
 {
 	const wscfg *c = &e->cfg;
-	snprintf(e->desc, sizeof(e->desc), "%s/%s maxframe=%ld recvmax=%ld fragsize=%ld%s%s", role_names[c->role], c->msgmode ? "msg" : "stream",
+	snprintf(e->desc, sizeof(e->desc), "%s%s/%s maxframe=%ld recvmax=%ld fragsize=%ld%s%s", role_names[c->role], ROLE_IS_SP(c->role) ? (c->sp1 ? "(pair1)" : "(pair0)") : "", c->msgmode ? "msg" : "stream",
 	    c->maxframe == DEFLT ? -1L : (long) c->maxframe, c->recvmax == DEFLT ? -1L : (long) c->recvmax, c->fragsize == DEFLT ? -1L : (long) c->fragsize,
 	    c->recv_text ? " recv-text" : "", c->send_text ? " send-text" : "");
 }
@@ -876,11 +937,13 @@ ep_open(wsep *e, const wscfg *cfg, const bb *extra)
 		ok = handshake_as_client(e, g_sl_port);
 		if (!ok) nng_aio_cancel(e->conn_aio);
 		nng_aio_wait(e->conn_aio);
-		if (ok && nng_aio_result(e->conn_aio) != 0) {
+		e->hs_rv = nng_aio_result(e->conn_aio);
+		if (ok && cfg->hs_defect == HS_NONE && nng_aio_result(e->conn_aio) != 0) {
 			vf_violation("C16/ws-handshake/accept-failed", "%s: upgrade answered with 101 but accept failed: %s", e->desc, nng_strerror(nng_aio_result(e->conn_aio)));
 			ok = false;
 		}
 		if (nng_aio_result(e->conn_aio) == 0) e->st = nng_aio_get_output(e->conn_aio, 0);
+		if (cfg->hs_defect != HS_NONE) ok = e->st != NULL;
 		break;
 	case R_SD:
 		snprintf(url, sizeof(url), "ws://127.0.0.1:%u/x", lport);
@@ -898,15 +961,17 @@ ep_open(wsep *e, const wscfg *cfg, const bb *extra)
 		ok = handshake_as_server(e, extra);
 		if (!ok) nng_aio_cancel(e->conn_aio);
 		nng_aio_wait(e->conn_aio);
-		if (ok && nng_aio_result(e->conn_aio) != 0) {
+		e->hs_rv = nng_aio_result(e->conn_aio);
+		if (ok && cfg->hs_defect == HS_NONE && nng_aio_result(e->conn_aio) != 0) {
 			vf_violation("C16/ws-handshake/dial-failed", "%s: correct 101 response refused by the dialer: %s", e->desc, nng_strerror(nng_aio_result(e->conn_aio)));
 			ok = false;
 		}
 		if (nng_aio_result(e->conn_aio) == 0) e->st = nng_aio_get_output(e->conn_aio, 0);
+		if (cfg->hs_defect != HS_NONE) ok = e->st != NULL;
 		break;
 	case R_PL: {
 		int port = 0;
-		CK(nng_pair0_open(&e->sock));
+		CK(cfg->sp1 ? nng_pair1_open(&e->sock) : nng_pair0_open(&e->sock));
 		e->sock_open = true;
 		CK(nng_socket_set_ms(e->sock, NNG_OPT_SENDTIMEO, 10000));
 		for (int attempt = 0;; attempt++) {
@@ -927,7 +992,7 @@ ep_open(wsep *e, const wscfg *cfg, const bb *extra)
 	}
 	case R_PD:
 		snprintf(url, sizeof(url), "ws://127.0.0.1:%u/x", lport);
-		CK(nng_pair0_open(&e->sock));
+		CK(cfg->sp1 ? nng_pair1_open(&e->sock) : nng_pair0_open(&e->sock));
 		e->sock_open = true;
 		CK(nng_socket_set_ms(e->sock, NNG_OPT_SENDTIMEO, 10000));
 		CK(nng_socket_set_ms(e->sock, NNG_OPT_RECONNMINT, 5000));
@@ -948,7 +1013,7 @@ ep_open(wsep *e, const wscfg *cfg, const bb *extra)
 	}
 	vf_io_plan(VF_IO_FULL, 0, VF_IO_FULL, 0, 0);
 	if (ok) ep_post_recv(e);
-	e->no_emit = !ok; // what follows a failed upgrade is not a frame stream
+	e->no_emit = !ok || cfg->hs_defect != HS_NONE; // what follows a failed upgrade is not a frame stream
 	return ok;
 }
 
@@ -1043,6 +1108,7 @@ mark(marks *m, size_t o)
 }
 
 static size_t g_ctl_max = 125; // largest control payload the configured RECVMAXFRAME admits
+static bool   g_sp1;           // generated messages start with a pair1 hop header (00 00 00 01)
 
 static uint32_t
 gen_mask(vf_rng *r)
@@ -1086,10 +1152,12 @@ static const size_t msg_sizes[] = { 0, 1, 2, 5, 20, 60, 124, 125, 126, 127, 128,
 static void
 gen_message(vf_rng *r, bb *w, marks *m, bool masked, size_t total, int op, size_t maxframe, int ctl_permille, int *npings)
 {
+	if (g_sp1 && total < 4) total = 4;
 	uint8_t *pl   = malloc(total ? total : 1);
 	int      nfr  = total == 0 ? (vf_chance(r, 1, 4) ? 2 : 1) : (int) vf_range(r, 1, 4);
 	size_t   cut[5];
 	gen_payload(r, pl, total);
+	if (g_sp1) memcpy(pl, "\0\0\0\1", 4);
 	cut[0] = 0;
 	for (int i = 1; i < nfr; i++) cut[i] = total ? vf_below(r, (uint32_t) total + 1) : 0;
 	cut[nfr] = total;
@@ -1138,7 +1206,7 @@ gen_valid_stream(vf_rng *r, const wscfg *c, wstream *s, bool small)
 		} else {
 			total = vf_chance(r, 1, 2) ? msg_sizes[vf_below(r, NMSG_SIZES)] : vf_below(r, 3000);
 		}
-		if (c->msgmode && c->recvmax > 0 && total > c->recvmax) total = c->recvmax - vf_below(r, (uint32_t) (c->recvmax > 3 ? 3 : 1));
+		if (c->msgmode && c->recvmax > 0 && total > c->recvmax) total = c->recvmax - vf_below(r, (uint32_t) (c->recvmax > 8 ? 3 : 1));
 		// a message that fills the limit exactly (control frames in between
 		// are not part of the message)
 		bool tight = c->msgmode && c->recvmax > 0 && c->recvmax <= 5000 && vf_chance(r, 1, 4);
@@ -1201,8 +1269,8 @@ valid_replay(wsep *e, const wstream *s, const wsdec *ref, int seg, size_t a, siz
 	if (seg != SEG_WITH_HANDSHAKE) ep_log_reset(e);
 	switch (seg) {
 	case SEG_CUT: vf_io_plan(VF_IO_FULL, 0, VF_IO_CUT_ONCE, (long) a, key); break;
-	case SEG_DRIBBLE: vf_io_plan(VF_IO_FULL, 0, VF_IO_DRIBBLE, (long) a, key); break;
-	case SEG_RANDOM: vf_io_plan(VF_IO_FULL, 0, VF_IO_RANDOM, (long) a, key); break;
+	case SEG_DRIBBLE: vf_io_plan(VF_IO_DRIBBLE, 1, VF_IO_DRIBBLE, (long) a, key); break; // (PONGs dribble out too)
+	case SEG_RANDOM: vf_io_plan(VF_IO_RANDOM, 5, VF_IO_RANDOM, (long) a, key); break;
 	default: vf_io_plan(VF_IO_FULL, 0, VF_IO_FULL, 0, key); break;
 	}
 	if (seg == SEG_PACED) {
@@ -1219,9 +1287,19 @@ valid_replay(wsep *e, const wstream *s, const wsdec *ref, int seg, size_t a, siz
 	}
 	// collect: messages at the application, PONGs at the raw peer.  The raw
 	// peer must keep reading while waiting (PONGs could fill the socket).
-	uint64_t end = vf_now_ns() + 10000000000ULL;
-	bool     delivered = false, ponged = false;
+	// Progress bound: "never arrives" is the verdict, not "slow".  After 10 s
+	// without completion on a live connection the wait goes on to 120 s; only
+	// data that is still missing then counts as lost (a stalled machine shows
+	// up in ws_slow_replays instead).
+	uint64_t t_start = vf_now_ns();
+	uint64_t end = t_start + 120000000000ULL;
+	bool     delivered = false, ponged = false, slow = false;
 	while (vf_now_ns() < end) {
+		if (!slow && vf_now_ns() - t_start > 10000000000ULL) {
+			slow = true;
+			vf_watchdog(300);
+		}
+		if (slow && (e->raw.eof || e->emit.nclose > 0)) break;
 		if (!delivered) {
 			pthread_mutex_lock(&e->mtx);
 			delivered = cond_delivered(e, (void *) ref);
@@ -1240,13 +1318,17 @@ valid_replay(wsep *e, const wstream *s, const wsdec *ref, int seg, size_t a, siz
 	}
 	vf_io_plan(VF_IO_FULL, 0, VF_IO_FULL, 0, 0);
 	ws_replays++;
+	if (slow) {
+		vf_stat("ws_slow_replays", 1);
+		vf_watchdog(180);
+	}
 	bool ok = true;
 	pthread_mutex_lock(&e->mtx);
 	if (e->rx_stopped || !delivered) {
 		bool        dead = e->rx_stopped || e->raw.eof || e->emit.nclose > 0;
 		const char *key  = ref->ctl_over_max ? "C16/ws-valid-rejected/control-frame-counted-against-recvmaxsz" : dead ? "C16/ws-valid-rejected/connection-failed" : "C16/ws-segmentation/not-delivered";
 		vf_violation(key, "%s: valid stream of %zu bytes, plan %s: %s after %d messages / %zu bytes were delivered (reference decoder: %d messages / %zu bytes)%s",
-		    e->desc, s->wire.n, plan, dead ? (e->rx_stopped ? nng_strerror(e->rx_err) : "nng closed the connection") : "nothing more arrived within 10 s", e->nmsg, e->got.n, ref->nmsg, ref->data.n,
+		    e->desc, s->wire.n, plan, dead ? (e->rx_stopped ? nng_strerror(e->rx_err) : "nng closed the connection") : "nothing more arrived within 120 s", e->nmsg, e->got.n, ref->nmsg, ref->data.n,
 		    ref->ctl_over_max ? "; the stream has a control frame whose payload (plus the unfinished message around it) exceeds NNG_OPT_RECVMAXSZ, which limits messages" : "");
 		ok = false;
 	} else {
@@ -1271,7 +1353,7 @@ valid_replay(wsep *e, const wstream *s, const wsdec *ref, int seg, size_t a, siz
 			    "%s: valid stream of %zu bytes, plan %s: nng closed the connection with %d of %d PINGs unanswered%s", e->desc, s->wire.n, plan, s->npings - (e->emit.npong - npong0), s->npings,
 			    ref->ctl_over_max ? "; the stream has a control frame whose payload (plus the unfinished message around it) exceeds NNG_OPT_RECVMAXSZ, which limits messages" : "");
 		} else {
-			vf_violation("C16/ws-emit/pong-missing", "%s: plan %s: %d PING frames sent, %d PONG frames received within 10 s", e->desc, plan, s->npings, e->emit.npong - npong0);
+			vf_violation("C16/ws-emit/pong-missing", "%s: plan %s: %d PING frames sent, %d PONG frames received within 120 s", e->desc, plan, s->npings, e->emit.npong - npong0);
 		}
 		ok = false;
 	}
@@ -1285,13 +1367,40 @@ valid_replay(wsep *e, const wstream *s, const wsdec *ref, int seg, size_t a, siz
 
 // --- transmit phase: the application sends, the raw peer parses strictly
 static bool
-tx_phase(wsep *e, vf_rng *r, int nsend, bool big)
+tx_phase_inner(wsep *e, vf_rng *r, int nsend, bool big)
 {
-	for (int i = 0; i < nsend; i++) {
+	// messages at the fragmentation / length-encoding boundaries of this
+	// connection's SENDMAXFRAME come first
+	size_t forced[4];
+	int    nforced = 0;
+	size_t hdr = e->cfg.sp1 ? 4 : 0; // pair1 puts its hop count in front (separate iov)
+	if (e->eff_fragsize == 0 || e->eff_fragsize >= 65536) forced[nforced++] = 65536 - hdr + vf_below(r, 3);
+	if (e->eff_fragsize >= 125 && e->eff_fragsize <= 65536) {
+		forced[nforced++] = e->eff_fragsize - hdr;                        // exactly one full frame
+		forced[nforced++] = e->eff_fragsize - hdr + 1 + vf_below(r, 200); // one byte (or a few) more
+	}
+	if (vf_chance(r, 1, 2)) nforced = nforced > 1 ? 1 + (int) vf_below(r, (uint32_t) nforced) : nforced;
+	for (int i = 0; i < nsend + nforced; i++) {
 		size_t n = vf_chance(r, 1, 2) ? msg_sizes[vf_below(r, (uint32_t) (big ? NMSG_SIZES : NMSG_SIZES - 3))] : vf_below(r, 2000);
+		if (i < nforced) n = forced[i];
 		if (e->eff_fragsize > 0 && e->eff_fragsize < 100 && n > 6000) n = 6000 + (n & 1023); // keep frame counts sane
-		uint8_t *p = malloc(n ? n : 1);
-		vf_fill(p, n, vf_rand(r));
+		uint8_t *p = malloc(n + hdr + 1);
+		vf_io_plan(VF_IO_FULL, 0, VF_IO_FULL, 0, 0);
+		if (hdr) memcpy(p, "\0\0\0\1", 4);
+		vf_fill(p + hdr, n, vf_rand(r));
+		// shorten nng's own writes while it emits this message
+		const char *wplan = "full";
+		switch (vf_below(r, 5)) {
+		case 0:
+			if (n <= 4000) { vf_io_plan(VF_IO_DRIBBLE, (long) vf_range(r, 1, 3), VF_IO_FULL, 0, vf_rand(r)); wplan = "dribble"; }
+			else { vf_io_plan(VF_IO_RANDOM, 3000, VF_IO_FULL, 0, vf_rand(r)); wplan = "random"; }
+			break;
+		case 1: vf_io_plan(VF_IO_RANDOM, (long) vf_range(r, 2, 9000), VF_IO_FULL, 0, vf_rand(r)); wplan = "random"; break;
+		case 2: vf_io_plan(VF_IO_CUT_ONCE, (long) vf_range(r, 1, (uint32_t) (n + hdr + 20)), VF_IO_FULL, 0, vf_rand(r)); wplan = "cut-once"; break;
+		default: break;
+		}
+		long short0 = vf_io_short_sends();
+		long le0[3] = { e->emit.n_lenenc[0], e->emit.n_lenenc[1], e->emit.n_lenenc[2] };
 		int    nmsg0  = e->emit.nmsg;
 		size_t data0  = e->emit.data.n;
 		long   fr0    = e->emit.ndata_frames;
@@ -1301,9 +1410,10 @@ tx_phase(wsep *e, vf_rng *r, int nsend, bool big)
 		if (ROLE_IS_SP(e->cfg.role)) {
 			nng_msg *m;
 			CK(nng_msg_alloc(&m, n));
-			if (n) memcpy(nng_msg_body(m), p, n);
+			if (n) memcpy(nng_msg_body(m), p + hdr, n);
 			nng_aio_set_msg(e->tx_aio, m);
 			nng_socket_send(e->sock, e->tx_aio);
+			n += hdr; // on the wire (and in p) the hop header precedes the body
 		} else if (e->cfg.msgmode) {
 			nng_msg *m;
 			CK(nng_msg_alloc(&m, n));
@@ -1388,12 +1498,25 @@ tx_phase(wsep *e, vf_rng *r, int nsend, bool big)
 			return false;
 		}
 		vf_stat("ws_tx_messages", 1);
+		vf_stat("ws_tx_short_writes", vf_io_short_sends() - short0);
+		if (vf_io_short_sends() > short0) vf_class("ws-tx-short-write/%s/%s/%s", ROLE_IS_SERVER(e->cfg.role) ? "server" : "client", e->cfg.msgmode ? "msg" : "stream", wplan);
+		for (int k = 0; k < 3; k++)
+			if (e->emit.n_lenenc[k] > le0[k]) vf_class("ws-tx-lenenc/%s/%s", ROLE_IS_SERVER(e->cfg.role) ? "server" : "client", k == 0 ? "7bit" : k == 1 ? "16bit" : "64bit");
+		if (hdr && e->emit.ndata_frames - fr0 > 1) vf_stat("ws_tx_sp_header_fragmented", 1);
 		vf_stat("ws_tx_frames", e->emit.ndata_frames - fr0);
 		if (e->emit.ndata_frames - fr0 > 1) vf_stat("ws_tx_fragmented", 1);
 		vf_class("ws-tx/%s/%s/frag=%zu/%s", role_names[e->cfg.role], e->cfg.msgmode ? "msg" : "stream", e->eff_fragsize, e->emit.ndata_frames - fr0 > 1 ? "fragmented" : n == 0 ? "empty" : "single");
 		free(p);
 	}
 	return true;
+}
+
+static bool
+tx_phase(wsep *e, vf_rng *r, int nsend, bool big)
+{
+	bool ok = tx_phase_inner(e, r, nsend, big);
+	vf_io_plan(VF_IO_FULL, 0, VF_IO_FULL, 0, 0);
+	return ok;
 }
 
 // --- closing handshake; returns after the raw peer saw EOF (or gave up)
@@ -1473,6 +1596,7 @@ gen_cfg(vf_rng *r, wscfg *c, bool small)
 	c->send_text = !ROLE_IS_SP(c->role) && vf_chance(r, 1, 3);
 	c->rxbuf     = vf_chance(r, 1, 3) ? vf_range(r, 1, 9) : vf_chance(r, 1, 2) ? vf_range(r, 10, 300) : 70000;
 	c->hs_plan   = vf_chance(r, 1, 4) ? (int) vf_range(r, 1, 2) : 0;
+	c->sp1       = ROLE_IS_SP(c->role) && vf_chance(r, 1, 2);
 }
 
 static void
@@ -1488,9 +1612,12 @@ valid_case(long idx)
 	bool small = !vf_chance(&r, 1, 4);
 	gen_cfg(&r, &c, small);
 	g_ctl_max = c.maxframe > 0 && c.maxframe < 125 ? c.maxframe : 125;
+	g_sp1     = c.sp1;
 	gen_valid_stream(&r, &c, &s, small);
+	g_sp1 = false;
 	// reference decode (this is the oracle for what must be delivered)
 	wsdec_init(&ref, ROLE_IS_SERVER(c.role), c.msgmode, c.maxframe, c.recvmax, c.recv_text);
+	ref.strip = c.sp1 ? 4 : 0; // pair1 consumes the hop count
 	wsdec_feed(&ref, s.wire.p, s.wire.n);
 	if (ref.viol != NULL || ref.consumed != s.wire.n || ref.inmsg) vf_harness_fail("generated stream is not valid for the reference decoder: %s at %zu (idx %ld)", ref.viol ? ref.viol : "incomplete", ref.viol_at, idx);
 	vf_case_begin(idx, "ws valid %s/%s stream=%zu bytes %d msgs %d pings", role_names[c.role], c.msgmode ? "msg" : "stream", s.wire.n, ref.nmsg, s.npings);
@@ -1555,7 +1682,8 @@ valid_case(long idx)
 	vf_stat("ws_rx_messages", n * ref.nmsg);
 	if (ok) ok = tx_phase(&e, &r, (int) vf_range(&r, 1, 4), !small);
 	close_phase(&e, &r, ok);
-	vf_class("ws-valid/%s/%s/%s%s%s%s", role_names[c.role], c.msgmode ? "msg" : "stream", len <= 300 ? "exhaustive-cuts" : "sampled-cuts", s.npings ? "/pings" : "", ref.ndata_frames > ref.nmsg ? "/fragmented" : "", with_hs ? "/behind-handshake" : "");
+	if (c.sp1) vf_stat("ws_pair1_cases", 1);
+	vf_class("ws-valid/%s%s/%s/%s%s%s%s", role_names[c.role], c.sp1 ? "(pair1)" : "", c.msgmode ? "msg" : "stream", len <= 300 ? "exhaustive-cuts" : "sampled-cuts", s.npings ? "/pings" : "", ref.ndata_frames > ref.nmsg ? "/fragmented" : "", with_hs ? "/behind-handshake" : "");
 	if ((idx % 37) == 0) vf_sample("{\"mode\":\"valid\",\"endpoint\":\"%s\",\"stream_bytes\":%zu,\"messages\":%d,\"data_frames\":%ld,\"pings\":%d,\"replays\":%ld}", e.desc, len, ref.nmsg, ref.ndata_frames, s.npings, n);
 	ep_free(&e);
 	wsdec_free(&ref);
@@ -1572,7 +1700,8 @@ typedef struct {
 enum {
 	RU_MASK = 0, RU_OP3, RU_OP4, RU_OP5, RU_OP6, RU_OP7, RU_OPB, RU_OPC, RU_OPD, RU_OPE, RU_OPF,
 	RU_RSV1, RU_RSV2, RU_RSV3, RU_LEN16, RU_LEN64_SMALL, RU_LEN64_MID, RU_CTL126, RU_CTL_PONG126, RU_CLOSE126,
-	RU_CONT_NO_START, RU_CONT_AFTER_FIN, RU_NEW_IN_MSG, RU_NEW_TEXT_IN_MSG, RU_FRAME_ABOVE_MAX, RU_FRAME_ABOVE_MAX_64, RU_MSG_ABOVE_MAX, RU_MSG_ABOVE_MAX_MANY, NRULES
+	RU_CONT_NO_START, RU_CONT_AFTER_FIN, RU_NEW_IN_MSG, RU_NEW_TEXT_IN_MSG, RU_FRAME_ABOVE_MAX, RU_FRAME_ABOVE_MAX_64, RU_MSG_ABOVE_MAX, RU_MSG_ABOVE_MAX_MANY,
+	RU_LEN_4G, RU_LEN_MSB, RU_LEN_WRAP, NRULES
 };
 static const rule rules[NRULES] = {
 	[RU_MASK] = { "wrong-masking" },
@@ -1585,6 +1714,7 @@ static const rule rules[NRULES] = {
 	[RU_NEW_IN_MSG] = { "binary-inside-fragmented-message" }, [RU_NEW_TEXT_IN_MSG] = { "text-inside-fragmented-message" },
 	[RU_FRAME_ABOVE_MAX] = { "frame-above-recvmaxframe", false, true }, [RU_FRAME_ABOVE_MAX_64] = { "frame-above-recvmaxframe-64bit", false, true },
 	[RU_MSG_ABOVE_MAX] = { "message-above-recvmaxsz-two-frames", true, true }, [RU_MSG_ABOVE_MAX_MANY] = { "message-above-recvmaxsz-many-small-fragments", true, true },
+	[RU_LEN_4G] = { "frame-length-2^32", false, true }, [RU_LEN_MSB] = { "frame-length-2^63", false, true }, [RU_LEN_WRAP] = { "continuation-length-wraps-message-size", false, true },
 };
 
 static bool
@@ -1611,6 +1741,7 @@ rules_case(long idx)
 	c.role = (int) (idx % NROLES);
 	if (ROLE_IS_SP(c.role)) c.msgmode = true; else c.msgmode = rules[ru].msg_only ? true : ((idx / (NROLES * NRULES)) & 1) != 0;
 	c.hs_plan = 0;
+	c.sp1     = false; // (planted payloads have no hop header; pair1 is exercised in valid mode)
 	if (ru == RU_NEW_TEXT_IN_MSG) c.recv_text = !ROLE_IS_SP(c.role);
 	if (!rules[ru].needs_limit) {
 		// limits that cannot interfere with the rule under test
@@ -1619,6 +1750,17 @@ rules_case(long idx)
 	} else {
 		c.maxframe = ru == RU_FRAME_ABOVE_MAX ? vf_range(&r, 10, 3000) : ru == RU_FRAME_ABOVE_MAX_64 ? vf_range(&r, 65536, 100000) : 0;
 		c.recvmax  = (ru == RU_MSG_ABOVE_MAX || ru == RU_MSG_ABOVE_MAX_MANY) ? vf_range(&r, 20, 5000) : 0;
+		if (ru == RU_LEN_4G) {
+			// 4 GiB is only wrong because of a limit: frame limit, or (message mode) message limit alone
+			if (c.msgmode && vf_chance(&r, 1, 2)) c.recvmax = vf_range(&r, 20, 1u << 20);
+			else c.maxframe = vf_chance(&r, 1, 2) ? (1u << 20) : vf_range(&r, 126, 1u << 24);
+		}
+		if (ru == RU_LEN_MSB || ru == RU_LEN_WRAP) {
+			// always wrong (RFC 6455: most significant bit must be 0); with no frame
+			// limit the size arithmetic and the allocation itself are in the path
+			c.maxframe = vf_chance(&r, 1, 2) ? 0 : (1u << 20);
+			c.recvmax  = c.msgmode && vf_chance(&r, 2, 3) ? vf_range(&r, 20, 5000) : 0;
+		}
 	}
 	bool masked = ROLE_IS_SERVER(c.role);
 	g_ctl_max   = c.maxframe > 0 && c.maxframe < 125 ? c.maxframe : 125;
@@ -1636,7 +1778,14 @@ rules_case(long idx)
 	size_t small = vf_below(&r, 100);
 	bool   open_msg = false; // rule needs an unfinished message in front
 	switch (ru) {
-	case RU_MASK: put_frame(&s.wire, true, 0, OP_BIN, !masked, gen_mask(&r), pl, small, 0); break;
+	case RU_MASK: {
+		static const int ops[] = { OP_BIN, OP_BIN, OP_PING, OP_PONG, OP_CLOSE };
+		int              op    = ops[vf_below(&r, 5)];
+		if (op == OP_CLOSE) { pl[0] = 0x03; pl[1] = 0xe8; small = 2; }
+		if (op >= OP_CLOSE && small > g_ctl_max) small = g_ctl_max;
+		put_frame(&s.wire, true, 0, op, !masked, gen_mask(&r), pl, small, 0);
+		break;
+	}
 	case RU_OP3: case RU_OP4: case RU_OP5: case RU_OP6: case RU_OP7:
 		put_frame(&s.wire, vf_chance(&r, 1, 2), 0, 3 + (ru - RU_OP3), masked, gen_mask(&r), pl, small, 0); break;
 	case RU_OPB: case RU_OPC: case RU_OPD: case RU_OPE: case RU_OPF:
@@ -1702,6 +1851,29 @@ rules_case(long idx)
 		put_frame(&s.wire, true, 0, OP_CONT, masked, gen_mask(&r), p + a, b, 0);
 		free(p);
 		open_msg = true;
+		break;
+	}
+	case RU_LEN_4G:
+	case RU_LEN_MSB: {
+		uint64_t l = ru == RU_LEN_4G ? (1ULL << 32) + (vf_chance(&r, 1, 2) ? 0 : vf_below(&r, 1000)) : (1ULL << 63) | (vf_chance(&r, 1, 2) ? 0 : vf_rand(&r) >> 1);
+		if (vf_chance(&r, 1, 2)) {
+			put_frame(&s.wire, false, 0, OP_BIN, masked, gen_mask(&r), pl, vf_below(&r, 10), 0);
+			bad_at = s.wire.n;
+			put_hdr64(&s.wire, vf_chance(&r, 1, 2), OP_CONT, masked, gen_mask(&r), l);
+		} else {
+			put_hdr64(&s.wire, vf_chance(&r, 1, 2), OP_BIN, masked, gen_mask(&r), l);
+		}
+		bb_add(&s.wire, pl, vf_below(&r, 40)); // a little of the promised payload
+		break;
+	}
+	case RU_LEN_WRAP: {
+		// first fragment of k bytes, then a continuation announcing 2^64-j
+		// bytes (j <= k): added up modulo 2^64 the message looks tiny
+		size_t k = vf_range(&r, 1, 16);
+		put_frame(&s.wire, false, 0, OP_BIN, masked, gen_mask(&r), pl, k, 0);
+		bad_at = s.wire.n;
+		put_hdr64(&s.wire, true, OP_CONT, masked, gen_mask(&r), (uint64_t) 0 - vf_range(&r, 1, (uint32_t) k));
+		bb_add(&s.wire, pl, vf_below(&r, 40));
 		break;
 	}
 	case RU_MSG_ABOVE_MAX_MANY: {
@@ -1807,6 +1979,90 @@ rules_case(long idx)
 	bb_free(&s.wire);
 }
 
+// ================================================================ hs mode
+// One defect in the raw peer's half of the upgrade exchange per connection.
+// A listener must answer with something else than 101 (or close) and must
+// not hand a stream / pipe to the application; a dialer must fail the dial
+// (stream) or drop the connection without delivering anything (SP socket).
+static void
+hs_case(long idx)
+{
+	vf_rng r;
+	wscfg  c;
+	wsep   e;
+	bb     canary = { 0 };
+	char   key[160];
+	vf_rng_seed(&r, vf_seed, (uint64_t) idx);
+	gen_cfg(&r, &c, true);
+	c.role    = (int) (idx % NROLES);
+	c.msgmode = ROLE_IS_SP(c.role) || ((idx / NROLES) & 1);
+	c.sp1     = ROLE_IS_SP(c.role) && vf_chance(&r, 1, 2);
+	c.maxframe = c.recvmax = 0;
+	bool srv = ROLE_IS_SERVER(c.role);
+	int  n   = srv ? HL_LAST - HL_FIRST + 1 : HD_LAST - HD_FIRST + 1;
+	int  df  = (srv ? HL_FIRST : HD_FIRST) + (int) ((idx / NROLES) % n);
+	if (!ROLE_IS_SP(c.role) && (df == HD_PROTO_MISSING || df == HD_PROTO_WRONG)) df = df == HD_PROTO_MISSING ? HD_ACCEPT_WRONG : HD_STATUS_200;
+	if (!ROLE_IS_SP(c.role) && (df == HL_PROTO_MISSING || df == HL_PROTO_WRONG)) df = df == HL_PROTO_MISSING ? HL_KEY_MISSING : HL_VERSION_8;
+	c.hs_defect = df;
+	static const uint8_t cn[] = "\0\0\0\1HS-CANARY-MUST-NOT-BE-DELIVERED";
+	put_frame(&canary, true, 0, OP_BIN, srv, gen_mask(&r), cn, sizeof(cn) - 1, 0);
+	vf_case_begin(idx, "ws upgrade defect %s on %s%s", hs_names[df], role_names[c.role], c.sp1 ? "(pair1)" : "");
+	bool        up = ep_open(&e, &c, srv ? NULL : &canary);
+	bool        accepted = false, undecided = false;
+	const char *outcome = "refused";
+	char        obuf[48];
+	switch (c.role) {
+	case R_SL:
+	case R_PL:
+		accepted = e.hs_status == 101 || up;
+		if (accepted && e.raw.fd >= 0) vf_fd_write_all(e.raw.fd, canary.p, canary.n, 2000);
+		if (e.hs_status == 0) outcome = "closed";
+		else { snprintf(obuf, sizeof(obuf), "%dxx", e.hs_status / 100); outcome = obuf; }
+		break;
+	case R_SD:
+		accepted = e.hs_rv == 0;
+		if (e.hs_rv == NNG_ETIMEDOUT) undecided = true;
+		outcome = nng_strerror(e.hs_rv);
+		break;
+	case R_PD: {
+		// no pipe may come up: the connection must be dropped, nothing delivered
+		uint64_t end = vf_now_ns() + 10000000000ULL;
+		bool     got = false;
+		while (vf_now_ns() < end && !e.raw.eof && !got) {
+			rp_fill(&e.raw, 5);
+			pthread_mutex_lock(&e.mtx);
+			got = e.nmsg > 0;
+			pthread_mutex_unlock(&e.mtx);
+		}
+		if (!got && !e.raw.eof) undecided = true;
+		outcome = e.raw.eof ? "connection-dropped" : "kept";
+		break;
+	}
+	}
+	vf_quiesce(2, 1000);
+	pthread_mutex_lock(&e.mtx);
+	bool delivered = e.nmsg > 0 || e.got.n > 0;
+	pthread_mutex_unlock(&e.mtx);
+	if (accepted || delivered) {
+		snprintf(key, sizeof(key), "C16/ws-handshake-accepted/%s-%s/%s", srv ? "request" : "response", hs_names[df], role_names[c.role]);
+		vf_violation(key, "%s: upgrade %s with defect '%s' was accepted (%s%s)", e.desc, srv ? "request" : "response", hs_names[df],
+		    srv ? (e.hs_status == 101 ? "answered 101" : "accept completed") : c.role == R_SD ? "dial completed" : "pipe came up", delivered ? ", data behind it was delivered" : "");
+		outcome = "ACCEPTED";
+	} else if (undecided) {
+		snprintf(key, sizeof(key), "C16/ws-handshake-no-verdict/%s-%s/%s", srv ? "request" : "response", hs_names[df], role_names[c.role]);
+		vf_violation(key, "%s: upgrade %s with defect '%s': neither refused nor accepted within 10 s", e.desc, srv ? "request" : "response", hs_names[df]);
+		outcome = "NO-VERDICT";
+	} else {
+		vf_stat("ws_hs_defect_refused", 1);
+	}
+	vf_stat("ws_hs_defect_cases", 1);
+	vf_class("ws-hs/%s-%s/%s/%s", srv ? "request" : "response", hs_names[df], role_names[c.role], outcome);
+	if ((idx % 29) == 0) vf_sample("{\"mode\":\"hs\",\"endpoint\":\"%s\",\"defect\":\"%s %s\",\"outcome\":\"%s\"}", e.desc, srv ? "request" : "response", hs_names[df], outcome);
+	ep_close(&e);
+	ep_free(&e);
+	bb_free(&canary);
+}
+
 int
 main(int argc, char **argv)
 {
@@ -1815,24 +2071,27 @@ main(int argc, char **argv)
 	vf_watchdog(120);
 	crypto_selftest();
 	bool valid = !strcmp(vf_mode, "valid");
-	if (!valid && strcmp(vf_mode, "rules") != 0) vf_harness_fail("unknown mode '%s'", vf_mode);
+	bool hs    = !strcmp(vf_mode, "hs");
+	if (!valid && !hs && strcmp(vf_mode, "rules") != 0) vf_harness_fail("unknown mode '%s'", vf_mode);
 	vf_nng_init(4, 1, 2);
 	globals_up();
 	long since = 0;
 	for (long i = 0; i < vf_cases; i++) {
 		if (!vf_want_case(i)) continue;
 		vf_watchdog(180);
-		if (valid) valid_case(i); else rules_case(i);
+		if (valid) valid_case(i); else if (hs) hs_case(i); else rules_case(i);
 		vf_stat("cases", 1);
 		if (++since >= (valid ? 40 : 150)) {
 			since = 0;
 			globals_down();
+			vf_quiesce(2, 5000); // (nng_fini racing a poller-driven reap is C10's business)
 			vf_nng_fini("C16");
 			vf_nng_init(4, 1, 2);
 			globals_up();
 		}
 	}
 	globals_down();
+	vf_quiesce(2, 5000);
 	vf_stat("io_short_recvs", vf_io_short_recvs());
 	vf_stat("ws_replays_total", ws_replays);
 	vf_nng_fini("C16");
